@@ -873,19 +873,34 @@ class H2Stream:
 
             input_ = StreamInputs.SEND_INFORMATIONAL_HEADERS
 
-        events = self.state_machine.process_input(input_)
-
-        # Every check that can refuse this call has to happen before the
-        # header block is encoded: the HPACK encoder is stateful, and a block
-        # that is encoded but never sent leaves it out of sync with the peer.
-        if self.state_machine.trailers_sent and not end_stream:
-            raise ProtocolError("Trailers must have END_STREAM set.")
-
-        hf = HeadersFrame(self.stream_id)
-        hdr_validation_flags = self._build_hdr_validation_flags(events)
-        frames = self._build_headers_frames(
-            headers, encoder, hf, hdr_validation_flags
+        # The state machine accepts a header block at this point. Whether this
+        # particular block may be sent is only known once it has been looked
+        # at: if it is refused nothing is sent, so the stream has to be left
+        # exactly as it was (and the caller can send a correct block instead).
+        machine = self.state_machine
+        previous = (
+            machine.state, machine.client,
+            machine.headers_sent, machine.trailers_sent,
         )
+        events = machine.process_input(input_)
+
+        try:
+            # Every check that can refuse this call has to happen before the
+            # header block is encoded: the HPACK encoder is stateful, and a
+            # block that is encoded but never sent leaves it out of sync with
+            # the peer.
+            if machine.trailers_sent and not end_stream:
+                raise ProtocolError("Trailers must have END_STREAM set.")
+
+            hf = HeadersFrame(self.stream_id)
+            hdr_validation_flags = self._build_hdr_validation_flags(events)
+            frames = self._build_headers_frames(
+                headers, encoder, hf, hdr_validation_flags
+            )
+        except ProtocolError:
+            (machine.state, machine.client,
+             machine.headers_sent, machine.trailers_sent) = previous
+            raise
 
         if end_stream:
             # Not a bug: the END_STREAM flag is valid on the initial HEADERS
